@@ -365,6 +365,23 @@ def run(rep, tier):
     # ---- R15.10 the tree built from arbitrary text has bounded depth
     nesting_bound(rep, fb, 'R15.10')
     payload_atoms_are_data(rep, fb, 'R15.11')
+    # ---- R15.13 deciding "equal" takes one pass over the value
+    rep.rule('R15.13', 'the round trip can be checked: Data\'s comparison visits each node once - the operators do not compare a nested container twice per level (operator!= asking operator< both ways, operator< asking the container for != and then for <: 2^depth, hours at depth 40 while fromJSON accepts 1000 levels)')
+    dops = {q_: next((f_ for f_ in fb.funcs.values() if f_.q == 'uscxml::Data::' + q_), None) for q_ in ('operator==', 'operator!=', 'operator<')}
+    if any(v is None for v in dops.values()):
+        raise AnalysisBroken('Data comparison operators not in the fact base: %s' % sorted(k for k, v in dops.items() if v is None))
+    def data_calls(f_, name):
+        return [n for n in f_.walk() if n.get('callee', {}).get('q') == 'uscxml::Data::' + name]
+    twice = []
+    if len(data_calls(dops['operator!='], 'operator<')) >= 2:
+        twice.append('operator!= calls operator< %d times' % len(data_calls(dops['operator!='], 'operator<')))
+    for m_ in ('array', 'compound'):
+        ops_ = {n.get('op') for n in dops['operator<'].walk() if n['k'] == 'CXXOperatorCallExpr' and n.get('op') in ('!=', '<', '==') and sum(
+            1 for y in sub(n) if y['k'] == 'MemberExpr' and y.get('ref', {}).get('name') == m_) >= 2}
+        if len(ops_) >= 2:
+            twice.append('operator< compares `%s` with %s' % (m_, ' and '.join(sorted(ops_))))
+    rep.check(not twice, 'R15.13', 'Data|comparison cost', dops['operator<'].where(), 'the comparison operators %s' % (
+        'derive from one pass over the value' if not twice else 'descend into a nested container more than once per level (%s): fromJSON(toJSON(x)) == x takes 1.9 s at 26 levels and doubles with every further level' % '; '.join(twice)))
     # ---- R15.12 a refused text leaves nothing behind
     rep.rule('R15.12', 'failing cleanly includes giving the token buffer back: in Data::fromJSON every path from the allocation of the token array to an exit of the function - the throws for refused texts included - passes a free of it (or the allocation is owned by an object)')
     from .. import path as pathm12
